@@ -3,7 +3,7 @@
    (Ref/Stream.v), so the error it reports is the first defect in byte order by construction; the
    crate's model reports exactly that error.  Declarative characterisations: Proofs/RefSpec.v. *)
 From BS Require Import Impl.Visit Ref.Grammar Ref.MetaDefs Proofs.CsDec Proofs.ImplRefLeaf Proofs.Transfer Proofs.Entries
-  Proofs.SpecLemmas Proofs.RefSpec.
+  Proofs.SpecLemmas Proofs.RefSpec Proofs.ImplRefTx Proofs.ErrSpec.
 Open Scope N_scope.
 
 (* the model of the crate fails with error e exactly when the reference decoder fails with e,
@@ -29,3 +29,33 @@ Theorem C14_nonminimal_compact_size : forall brk s h,
    (exists v rest, inp s = xfe :: le_enc 4 v ++ rest /\ v <= 65535) \/
    (exists v rest, inp s = xff :: le_enc 8 v ++ rest /\ v <= 4294967295)).
 Proof. exact r_compact_nonminimal. Qed.
+
+(* the same characterisation on the crate's incremental compact-size decoder *)
+Theorem C14_scan_len_nonminimal : forall s c c',
+  scan_len s c = (Err NonMinimalVarInt, c') <->
+  c' = c /\
+  ((exists v rest, bytes s = xfd :: le_enc 2 v ++ rest /\ v < 253) \/
+   (exists v rest, bytes s = xfe :: le_enc 4 v ++ rest /\ v <= 65535) \/
+   (exists v rest, bytes s = xff :: le_enc 8 v ++ rest /\ v <= 4294967295)).
+Proof. exact scan_len_nonminimal. Qed.
+
+(* an empty input list followed by a flag byte other than 1 gives UnknownSegwitFlag carrying exactly that byte *)
+Theorem C14_unknown_segwit_flag : forall p b h x h', InLen b ->
+  (visit_transaction never (sl p b) h = (Err (UnknownSegwitFlag x), h') <->
+   exists v byte rest, lenN v = 4 /\ b = v ++ [x00] ++ [byte] ++ rest /\ b2n byte = x /\ x <> 1 /\ h' = ETxIns 0 :: h).
+Proof. exact tx_unknown_flag. Qed.
+
+(* a segwit-encoded transaction with at least one input whose witnesses are all empty gives
+   SegwitFlagWithoutWitnesses, whether or not the lock time is present *)
+Theorem C14_segwit_flag_without_witnesses : forall p b h h', InLen b ->
+  (visit_transaction never (sl p b) h = (Err SegwitFlagWithoutWitnesses, h') <->
+   exists v ins outs rest, lenN v = 4 /\ ins <> [] /\ wf_txins ins /\ wf_txouts outs /\
+     b = v ++ [x00; x01] ++ enc_txins ins ++ enc_txouts outs ++ repeat x00 (length ins) ++ rest /\
+     h' = nowit_hist p ins outs h).
+Proof. exact tx_no_witnesses. Qed.
+
+(* with a never-breaking visitor only the four format errors occur: never VisitBreak, never Other *)
+Theorem C14_only_format_errors : forall E, covered E -> forall p b h e h', e_D E b ->
+  e_visit E never (sl p b) h = (Err e, h') ->
+  e = MoreBytesNeeded \/ e = NonMinimalVarInt \/ e = SegwitFlagWithoutWitnesses \/ exists x, e = UnknownSegwitFlag x.
+Proof. exact never_run_errors. Qed.
